@@ -137,7 +137,7 @@ func shrinkMain(path string, emit func(any)) int {
 	}
 	fails := func(res *Result) bool {
 		for _, v := range res.Violations {
-			if v.Prop == st.Property && v.Kind == st.Kind {
+			if (v.Prop == st.Property || v.Prop == "*") && v.Kind == st.Kind {
 				return true
 			}
 		}
@@ -164,7 +164,7 @@ func shrinkMain(path string, emit func(any)) int {
 			st.Index++
 			continue
 		}
-		res := execute(st.Seed, st.Scenario, c, false)
+		res := execute(st.Seed, st.Scenario, ExecOpts{Tapes: c, Enum: st.Enum, EnumPos: st.EnumPos, EnumVariant: st.EnumVariant})
 		st.Runs++
 		if fails(res) {
 			st.Tapes = res.Tapes // only what was actually consumed
